@@ -1,9 +1,9 @@
 //! T2: integer / byte-array leaf functions.
 //! Supported subset (everything else => untranslated):
 //!   params: `x: i32|u32|u8|bool|...`, `x: &mut u32` (threaded: returned as first tuple component)
-//!   stmts : `*x += e;`  `x += e;`  `let x = e;`  tail expression
+//!   stmts : `*x += e;`  `x += e;`  `*x = e;`  `x = e;`  `let x = e;`  tail expression
 //!   exprs : int literals, paths, `-e`, `!e`, `e + e`, `e - e`, comparisons, `if c {a} else {b}`,
-//!           `[e, ...]` / `[e; n]` byte arrays, `e.is_negative()`, `e.saturating_abs()`, `e.to_be_bytes()`, `a.concat(b)`,
+//!           `[e, ...]` / `[e; n]` byte arrays, `e.is_negative()`, `e.saturating_abs()`, `e.saturating_add(e)`, `e.wrapping_add(e)`, `e.saturating_sub(e)`, `e.wrapping_sub(e)`, `e.to_be_bytes()`, `a.concat(b)`,
 //!           identity wrappers `GenericArray::from(e)`, `e.into()`, `T(e)` for a tuple-struct `T`.
 //! Fixed-width arithmetic keeps Rust's wrapping result *and* emits `<fn>_overflows`, true exactly
 //! where a debug build panics ("attempt to add/negate with overflow").
@@ -110,6 +110,17 @@ impl Tr {
                 match (name.as_str(), m.args.len()) {
                     ("saturating_abs", 0) if signed(&t) =>
                         Ok((format!("(if {v} == {ty}.minValue then {ty}.maxValue else if decide ({v} < 0) then (-{v}) else {v})", ty = lean_ty(&t)), o, t)),
+                    ("saturating_add", 1) | ("wrapping_add", 1) | ("saturating_sub", 1) | ("wrapping_sub", 1) if !signed(&t) && t != Ty::Bool && t != Ty::Bytes && t != Ty::Unknown => {
+                        let (a, ao, _) = self.expr(&m.args[0], &t)?;
+                        let b = bits(&t);
+                        let e = match name.as_str() {
+                            "saturating_add" => format!("(if decide ({v}.toNat + {a}.toNat ≥ 2^{b}) then {ty}.ofNat (2^{b} - 1) else {v} + {a})", ty = lean_ty(&t)),
+                            "wrapping_add" => format!("({v} + {a})"),
+                            "saturating_sub" => format!("(if decide ({v}.toNat < {a}.toNat) then {ty}.ofNat 0 else {v} - {a})", ty = lean_ty(&t)),
+                            _ => format!("({v} - {a})"),
+                        };
+                        Ok((e, format!("({o} || {ao})"), t))
+                    }
                     ("is_negative", 0) if signed(&t) => Ok((format!("(decide ({v} < 0))"), o, Ty::Bool)),
                     ("to_be_bytes", 0) if t == Ty::U32 => Ok((format!("(IsoMdl.be32 {v})"), o, Ty::Bytes)),
                     ("into", 0) | ("to_vec", 0) | ("clone", 0) => Ok((v, o, t)),
@@ -159,6 +170,15 @@ impl Tr {
                 let o = format!("({ro} || decide ({name}.toNat + {r}.toNat ≥ 2^{}))", bits(&t));
                 let (rv, rro, rt) = self.block_w(rest, expect, wrap)?;
                 Ok((format!("(let {name} := {name} + {r};\n    {rv})"), format!("({o} || (let {name} := {name} + {r};\n    {rro}))"), rt))
+            }
+            // `*x = e;` / `x = e;`
+            Stmt::Expr(Expr::Assign(a), Some(_)) => {
+                let target = match &*a.left { Expr::Unary(u) if matches!(u.op, UnOp::Deref(_)) => &*u.expr, other => other };
+                let name = match target { Expr::Path(p) => p.path.get_ident().ok_or("assign target")?.to_string(), _ => return Err("assign target".into()) };
+                let t = self.env.get(&name).ok_or("unknown assign target")?.clone();
+                let (r, ro, _) = self.expr(&a.right, &t)?;
+                let (rv, rro, rt) = self.block_w(rest, expect, wrap)?;
+                Ok((format!("(let {name} := {r};\n    {rv})"), format!("({ro} || (let {name} := {r};\n    {rro}))"), rt))
             }
             _ => Err("statement kind".into()),
         }
